@@ -13,6 +13,7 @@ package main
 //	        mode man:  downsampleRawLoop with numChunks = nc
 //	ds.read <r> <nc> <samples>                      -> count;sum;min;max;counter lists read through
 //	                                                   query.NewPromSeriesSet(...).At().Iterator()
+//	ds.readr <r> <nc> <mint> <maxt> <samples>       -> the same with the series bounded to [mint, maxt]
 //	ds.aggr <mode> <r1> <nc1> <r2> <nc2> <samples>  -> chunks | invalid-range | hang | panic | nc-mismatch
 //	        level 1 always with downsampleRawLoop(nc1); level 2 auto: downsampleAggr(chks, mint, maxt, r1, r2)
 //	        as Downsample() calls it, man: downsampleAggrLoop(numChunks = nc2)
@@ -383,12 +384,17 @@ func toStore(metas []chunks.Meta, acs []*downsample.AggrChunk) []storepb.AggrChu
 
 var aggrOrder = []storepb.Aggr{storepb.Aggr_COUNT, storepb.Aggr_SUM, storepb.Aggr_MIN, storepb.Aggr_MAX, storepb.Aggr_COUNTER}
 
-// queryRead reads one aggregate of the chunks the way the querier does.
+// queryRead reads one aggregate of the chunks the way the querier does, over the full range.
 func queryRead(chks []storepb.AggrChunk, a storepb.Aggr) []pt {
+	return queryReadRange(chks, a, math.MinInt64, math.MaxInt64)
+}
+
+// queryReadRange: query.NewPromSeriesSet(…, mint, maxt, [aggr]) -> chunkSeries.Iterator -> boundedSeriesIterator.
+func queryReadRange(chks []storepb.AggrChunk, a storepb.Aggr, mint, maxt int64) []pt {
 	if len(chks) == 0 {
 		return nil
 	}
-	set := query.NewPromSeriesSet(&oneSeries{chks: chks}, math.MinInt64, math.MaxInt64, []storepb.Aggr{a}, nil)
+	set := query.NewPromSeriesSet(&oneSeries{chks: chks}, mint, maxt, []storepb.Aggr{a}, nil)
 	if !set.Next() {
 		panic("no series")
 	}
@@ -420,6 +426,8 @@ type dsCase struct {
 	l2metas []chunks.Meta
 	l2acs   []*downsample.AggrChunk
 	l2err   string
+	mint    int64
+	maxt    int64
 }
 
 // inDomain: timestamps ≥ 0 and strictly increasing, resolution > 0 — the domain of the oracles.
@@ -474,6 +482,26 @@ func execDs(tok []string) (string, *dsCase) {
 			parts[i] = fmtPts(queryRead(st, a))
 		}
 		return strings.Join(parts, ";"), &dsCase{r1: r, nc1: nc, ts: ts, vs: vs, l1metas: metas, l1: d, l1acs: acs}
+	case "ds.readr":
+		if len(tok) != 6 {
+			return "bad-op", nil
+		}
+		r, ok1 := atoi64(tok[1])
+		nc, ok2 := atoi(tok[2])
+		mint, ok3 := atoi64(tok[3])
+		maxt, ok4 := atoi64(tok[4])
+		ts, vs, ok5 := parseSamples(tok[5])
+		if !ok1 || !ok2 || !ok3 || !ok4 || !ok5 {
+			return "bad-op", nil
+		}
+		metas, _ := rawLevel("man", r, nc, ts, vs)
+		d, acs := decode(metas)
+		st := toStore(metas, acs)
+		parts := make([]string, 5)
+		for i, a := range aggrOrder {
+			parts[i] = fmtPts(queryReadRange(st, a, mint, maxt))
+		}
+		return strings.Join(parts, ";"), &dsCase{r1: r, nc1: nc, ts: ts, vs: vs, l1metas: metas, l1: d, l1acs: acs, mint: mint, maxt: maxt}
 	case "ds.aggr", "ds.ctr":
 		mode := "man"
 		args := tok[1:]
